@@ -490,19 +490,22 @@ impl StakeKeeper {
             .unwrap();
 
         let remaining_percentage = Decimal::one() - percentage;
-        validator_info.stake = validator_info.stake.mul_floor(remaining_percentage);
 
         // if the stake is completely gone, we clear all stakers and reinitialize the validator
-        if validator_info.stake.is_zero() {
+        if remaining_percentage.is_zero() {
             // need to remove all stakes
             for delegator in validator_info.stakers.iter() {
                 STAKES.remove(staking_storage, (delegator, validator));
             }
             validator_info.stakers.clear();
+            validator_info.stake = Uint128::zero();
         } else {
-            // otherwise we update all stakers
+            // otherwise we update all stakers; the validator's total is derived from their
+            // (possibly fractional) stakes, rounding it on its own would let it drift below
+            // their sum and finally wipe out delegations that are still worth whole tokens
+            let mut total_stake = Decimal::zero();
             for delegator in validator_info.stakers.iter() {
-                STAKES.update(
+                let stake = STAKES.update(
                     staking_storage,
                     (delegator, validator),
                     |stake| -> AnyResult<_> {
@@ -512,7 +515,9 @@ impl StakeKeeper {
                         Ok(stake)
                     },
                 )?;
+                total_stake += stake.stake;
             }
+            validator_info.stake = Uint128::new(1).mul_floor(total_stake);
         }
         // go through the queue to slash all pending unbondings
         let mut unbonding_queue = UNBONDING_QUEUE
